@@ -104,6 +104,16 @@ func c08Gen(rng *verifsim.RNG, idx int, tier string) *Plan {
 			p.Actions = append(p.Actions, Action{At: stop + int64(rng.Dur(time.Millisecond, 1500*time.Millisecond)), Kind: "release", Hold: "hn"})
 		}
 	}
+	if rng.Bool(0.15) {
+		// forwarding is switched off some time before the stop: hosts may still
+		// hold the default route from an earlier RA; the goodbye is owed all the same
+		p.Class += "+fwd-off-at-stop"
+		at := stop - int64(rng.Dur(time.Millisecond, 2500*time.Millisecond))
+		if at < 1000 {
+			at = 1000
+		}
+		p.Actions = append(p.Actions, Action{At: at, Kind: "fwd", If: "eth0", On: false})
+	}
 	if stop > 3*nsSec && rng.Bool(0.12) {
 		// the stop arrives while the interface is being re-dialled after a link
 		// event, and the (slow) dial attempt then succeeds: hosts still hold the
@@ -136,6 +146,18 @@ func c08Gen(rng *verifsim.RNG, idx int, tier string) *Plan {
 		secondInterface(rng, p)
 	}
 	return p
+}
+
+// c08ZeroByForwarding: did any RA after seq go out with router lifetime 0 because
+// its build found forwarding off (so that a lifetime of 0 does not single out
+// the goodbye)?
+func c08ZeroByForwarding(ws []*write, seq int) bool {
+	for _, w := range ws {
+		if w.seq > seq && w.build != nil && !w.build.fwd && w.build.fwdErr == "" {
+			return true
+		}
+	}
+	return false
 }
 
 // lastRelease returns the latest instant at which something the plan had
@@ -265,11 +287,12 @@ func c08Iface(info *runInfo, res *verifsim.Result, h *history, ifn string, unica
 			}
 			n := 0
 			var lastW *write
-			for _, w := range g.writes {
+			amb := c08ZeroByForwarding(g.writes, 0)
+			for i, w := range g.writes {
 				if w.marshalErr != "" || w.ra == nil {
 					continue
 				}
-				if w.mc() && w.ra.RouterLifetime == 0 {
+				if w.mc() && w.ra.RouterLifetime == 0 && !(amb && (i == 0 || !isTaskGoroutine(info, w.g, ifn))) {
 					n++
 				}
 				lastW = w
@@ -345,11 +368,22 @@ func c08Iface(info *runInfo, res *verifsim.Result, h *history, ifn string, unica
 		}
 	}
 
+	// The goodbye is told from other RAs by its router lifetime of 0 - unless
+	// forwarding is off, when every RA carries 0: then it is the multicast RA the
+	// task's own goroutine sends after the stop which is not the first
+	// transmission of its connection (that one is the initial RA).
 	var finals []*write
-	for _, w := range live.writes {
+	ambiguous := c08ZeroByForwarding(live.writes, stopSeq)
+	for i, w := range live.writes {
 		if w.seq > stopSeq && w.mc() && w.ra != nil && w.ra.RouterLifetime == 0 && w.marshalErr == "" {
+			if ambiguous && (i == 0 || !isTaskGoroutine(info, w.g, ifn)) {
+				continue
+			}
 			finals = append(finals, w)
 		}
+	}
+	if ambiguous {
+		res.Probe("stop_while_not_forwarding")
 	}
 	// the final RA's own build or transmission hit by an injected failure: it is
 	// only logged, there is nothing to count
